@@ -31,7 +31,8 @@ RULE = ("Parser cases: batches of inputs for parse_packet (valid checksum), deco
         "real receiver and sender: transport still 'connected', valid media / RTCP / data afterwards still delivered. "
         "Distinct/non-trivial = distinct (parser or state, outcome class, template) tuples that got past the outer validity "
         "checks."
-        " SCTP cases also use well-formed datagrams out of context: verbatim replays of what the peer sent earlier (handshake chunks included), ABORT, RE-CONFIG responses matching the victim's pending request, reset requests for arbitrary streams.")
+        " SCTP cases also use well-formed datagrams out of context: verbatim replays of what the peer sent earlier (handshake chunks included), ABORT, RE-CONFIG responses matching the victim's pending request, reset requests for arbitrary streams."
+        " The virtual clock may jump 70 s to 25 h before a replay; the peer's own stack may send a DATA chunk without user data on an ordered stream, after which that stream must still deliver.")
 ASSUMPTIONS = [
     "work is measured in monitored interpreter steps inside the repository's sources, not in wall-clock time",
     "well-formed hostile chunks that the stack accepts come from a lying peer, which may break its own data: only 'no exception, no hang, still connected, channels still usable for fresh traffic' is required there",
